@@ -10,14 +10,22 @@ Read from the LIVE objects of /repo's working tree (gen_consts.py has put it fir
 * the keys of `netref.builtin_classes_cache` (names whose proxies need no HANDLE_INSPECT round trip);
 * which `_rpyc_*attr` hooks `rpyc.Service` defines.
 
-AST facts that are not data:
+AST facts that are not data (normalised so that a refactoring that performs the same operations yields the same list:
+local names are anonymous - `<var>`, `<call>`, `.method` -, helpers of the same class / module are followed
+transitively down to a stop list of modelled entry points, a bare re-raise is dropped, an exception constructor
+is not a call):
 
-* for every `_handle_*`: the primitive touches its body performs — every call (dotted callee name; a call of a
-  parameter or local variable is `<call:var>`, a call of a call result is `<call:expr>`), every `raise`,
-  every `if <param>` truth test;
-* for `_unbox`, `_netref_factory`, `_dispatch_request`, `_dispatch`, `_check_attr`, `_access_attr`,
-  `_seq_request_callback`, `vinegar.load`: the same call lists plus every `self.<attr>` / module attribute
-  they read, so that e.g. a fallback to a global registry in `_unbox` changes a generated list.
+* `handlerTouches`: for every `_handle_*`, the primitive touches its body performs - every call, `raise:Cls`,
+  `truth:<var>`, `<splat>` / `<kwsplat>`, `index:...`;
+* `classFactoryCalls`: everything `netref.class_factory` calls (a `getattr`, `__import__`, `pydoc.locate`, ... on the
+  peer-chosen name would appear here).
+
+Deliberately NOT generated: call lists of `_unbox`, `_dispatch`, `_dispatch_request`, `_check_attr`, `_access_attr`,
+`_seq_request_callback`, `vinegar.load`.  What those do is pinned behaviourally instead - the recorder
+(handlers_rt.py) hooks the primitives they use (`protocol.getattr/hasattr/...`, `vinegar.__import__/sys/getattr`,
+`netref.sys`, `RefCountingColl.add`, `_send`) and the correspondence compares the resulting event sequence with the
+model's, so e.g. a fallback to a global registry in `_unbox` or an import in `vinegar.load` shows as an event the model
+does not have (an AST list of them alarmed on harmless rewrites and added nothing).
 
 Raises gen_consts.Inexpressible when the source no longer has a shape these definitions can express.
 """
@@ -44,10 +52,6 @@ SWITCHES = [
     ("propagate_SystemExit_locally", "cfgPropagateSysExit"),
 ]
 HOOKS = ("_rpyc_getattr", "_rpyc_setattr", "_rpyc_delattr")
-ANCHORS = ["_unbox", "_resolve_local_refs", "_netref_factory", "_dispatch_request", "_dispatch", "_check_attr", "_access_attr",
-           "_seq_request_callback", "_box", "_unbox_exc", "_cleanup"]
-
-
 def camel(name):
     parts = name.lower().split("_")
     return parts[0] + "".join(p.capitalize() for p in parts[1:])
